@@ -129,7 +129,8 @@ func gen(g *common.Gen) {
 					if r.Chance(1, 6) {
 						// very long freshness periods: up to the largest period a time.Duration holds
 						// (insertion time + period lies beyond the year 2262, where UnixNano wraps)
-						fresh = common.Pick(r, []int{3000000000000, 7430000000000, 8000000000000, 9223372036854, 86400000 * 365})
+						fresh = common.Pick(r, []int{3000000000000, 7430000000000, 8000000000000, 9223372036854, 86400000 * 365,
+							9223372036855, 10000000000000, 18446744073734, 9223372036854775807})
 						g.Stat("ins-fresh-very-long")
 					}
 				}
@@ -250,8 +251,8 @@ func exec(op string) string {
 		if d.MetaInfo != nil && d.MetaInfo.FreshnessPeriod != nil {
 			fs = strconv.FormatInt(d.MetaInfo.FreshnessPeriod.Milliseconds(), 10)
 		}
-		if fs != f[2] {
-			return "bad-op"
+		if fs != f[2] && !(len(f[2]) >= 13 && f[2] > "9223372036854" || len(f[2]) > 13) {
+			return "bad-op" // (periods beyond a time.Duration: what the decoder made of them is under test)
 		}
 		// assumption A-hash, checked: distinct names of the run have distinct hashes
 		// (a hash shared by two distinct names is not reported here: it shows as a wrong answer or size)
